@@ -18,7 +18,7 @@ ASSUMPTIONS = [
     "equality up to rtol 1e-9 of the largest value of a series (float re-association), total_footprint +1e-4 kg",
 ]
 BUDGET = {
-    "quick": dict(examples=14, max_steps=6, minimise_budget=30, wall_guard_s=600),
+    "quick": dict(examples=30, max_steps=6, minimise_budget=30, wall_guard_s=600),
     "thorough": dict(examples=180, max_steps=10, minimise_budget=150, wall_guard_s=4800),
 }
 
